@@ -11,6 +11,7 @@ use crate::{
 use std::fmt::{Display, Formatter};
 use std::io;
 use std::io::ErrorKind;
+use std::sync::atomic::{AtomicUsize, Ordering};
 use std::sync::{Arc, Mutex};
 
 #[derive(Clone)]
@@ -55,6 +56,22 @@ impl Display for ConnectionError {
     }
 }
 
+/// Counts a request as active from the moment it is accepted until its task ends
+struct ActiveRequestGuard(Arc<AtomicUsize>);
+
+impl ActiveRequestGuard {
+    fn new(counter: Arc<AtomicUsize>) -> Self {
+        counter.fetch_add(1, Ordering::AcqRel);
+        Self(counter)
+    }
+}
+
+impl Drop for ActiveRequestGuard {
+    fn drop(&mut self) {
+        self.0.fetch_sub(1, Ordering::AcqRel);
+    }
+}
+
 impl Tunnel {
     pub fn new(
         context: Arc<core::Context>,
@@ -89,14 +106,32 @@ impl Tunnel {
     }
 
     async fn listen_inner(&mut self) -> io::Result<()> {
+        // requests being served: the session is not idle while there are any
+        let active_requests = Arc::new(AtomicUsize::new(0));
         loop {
             log_id!(trace, self.id, "Tunnel waiting for request");
-            let request = match tokio::time::timeout(
-                self.context.settings.client_listener_timeout,
-                self.downstream.listen(),
-            )
-            .await
-            {
+            let listened = {
+                let listen = self.downstream.listen();
+                tokio::pin!(listen);
+                loop {
+                    match tokio::time::timeout(
+                        self.context.settings.client_listener_timeout,
+                        &mut listen,
+                    )
+                    .await
+                    {
+                        // the same future is awaited again: it also relays the payload of
+                        // HTTP/1.1 tunnels and must not be dropped half way
+                        Err(_) if active_requests.load(Ordering::Acquire) > 0 => log_id!(
+                            trace,
+                            self.id,
+                            "Ignoring listen timeout due to there are some active requests"
+                        ),
+                        x => break x,
+                    }
+                }
+            };
+            let request = match listened {
                 Ok(Ok(None)) => {
                     log_id!(debug, self.id, "Tunnel closed gracefully");
                     return Ok(());
@@ -130,7 +165,9 @@ impl Tunnel {
                 }
             };
 
+            let active_guard = ActiveRequestGuard::new(active_requests.clone());
             tokio::spawn(async move {
+                let _active_guard = active_guard;
                 fn report_fatal_if_too_many_open_files(
                     context: &Arc<core::Context>,
                     e: &ConnectionError,
